@@ -34,7 +34,7 @@ def peer_asdu(i, size=0):
 IC = apci.asdu(100, 6, 1, bytes([0, 0, 0, 20]))
 
 # the 11 stimuli of the property's quantifier
-STIMS = ["startdt", "stopdt", "testfr_act", "testfr_con", "i_good", "i_badns", "s_good", "s_partial", "s_bad", "enq", "cmd", "adv", "disc"]
+STIMS = ["startdt", "stopdt", "testfr_act", "testfr_con", "i_good", "i_stale", "i_badns", "s_good", "s_partial", "s_bad", "enq", "cmd", "adv", "disc"]
 
 
 def stim_lines(name, ci, counters):
@@ -50,6 +50,11 @@ def stim_lines(name, ci, counters):
     if name == "i_good":
         counters["p"] += 1
         return ["rxi %s %s" % (c, peer_asdu(counters["p"]).hex()), "tick"]
+    if name == "i_stale":
+        # an I-frame of the peer that does not acknowledge the server's most recent I-frame (N(R) one behind): the server then has both a
+        # received I-frame to acknowledge and a transmitted one still unacknowledged
+        counters["p"] += 1
+        return ["rxi %s %s 0 -1" % (c, peer_asdu(counters["p"]).hex()), "tick"]
     if name == "i_badns":
         return ["rxi %s %s 1" % (c, peer_asdu(999).hex()), "tick"]
     if name == "s_good":
@@ -111,6 +116,12 @@ DIRECTED = [
     ("startdt", "enq", "enq", "enq", "s_partial", "enq", "enq", "stopdt", "s_partial", "s_good"),
     ("startdt", "enq", "enq", "s_good", "enq", "enq", "enq", "s_partial", "enq", "stopdt", "testfr_act", "s_good", "startdt", "enq"),
     ("startdt", "cmd", "enq", "enq", "s_partial", "cmd", "enq", "stopdt", "s_partial", "s_partial", "s_good"),
+    # a received I-frame is still to be acknowledged AND a transmitted event is unacknowledged when STOPDT act arrives: the S-frame goes
+    # out at once, STOPDT con only after the peer's acknowledgement
+    ("startdt", "enq", "i_stale", "stopdt", "s_good", "testfr_act"),
+    ("startdt", "enq", "enq", "i_stale", "stopdt", "testfr_act", "s_partial", "s_good"),
+    ("startdt", "enq", "i_stale", "i_stale", "stopdt", "s_good", "startdt", "enq", "i_stale", "stopdt", "s_good"),
+    ("startdt", "cmd", "enq", "i_stale", "stopdt", "s_partial", "s_good"),
     ("i_good",), ("s_good",), ("startdt", "i_badns"), ("startdt", "s_bad"), ("startdt", "enq", "disc"),
 ]
 
@@ -192,7 +203,7 @@ def gen_deferred(rng, n):
         cnt = dict(p=0, e=0)
         seq = []
         if i % 2 == 0:
-            for name in ["startdt"] + [rng.choice(["enq", "enq", "s_partial", "i_good"]) for _ in range(rng.range(1, 4))] + ["stopdt"]:
+            for name in ["startdt"] + [rng.choice(["enq", "enq", "s_partial", "i_good", "i_stale"]) for _ in range(rng.range(1, 4))] + ["stopdt"]:
                 seq.append(name); lines += stim_lines(name, 0, cnt)
             lines += ["appsend c0", "tick", "appsend c0", "tick"]
             seq.append("appsend")
@@ -220,7 +231,7 @@ def gen_random(rng, n, length):
         cnt = dict(p=0, e=0)
         ci = 0
         seq = []
-        weights = ["startdt"] * 3 + ["stopdt"] * 3 + ["testfr_act", "testfr_con"] + ["i_good"] * 6 + ["i_badns"] + ["s_good"] * 4 + ["s_partial"] * 3 + ["s_bad"] + ["enq"] * 8 + ["cmd"] * 3 + ["adv"] * 2 + ["disc"]
+        weights = ["startdt"] * 3 + ["stopdt"] * 3 + ["testfr_act", "testfr_con"] + ["i_good"] * 6 + ["i_stale"] * 2 + ["i_badns"] + ["s_good"] * 4 + ["s_partial"] * 3 + ["s_bad"] + ["enq"] * 8 + ["cmd"] * 3 + ["adv"] * 2 + ["disc"]
         for _ in range(rng.range(5, length)):
             name = rng.choice(weights)
             seq.append(name)
